@@ -1535,19 +1535,14 @@ fn display_cedarvaluejson(
                     None
                 }
             });
-            match style {
-                Some(ast::CallStyle::MethodStyle) => {
-                    #[expect(
-                        clippy::indexing_slicing,
-                        reason = "method-style calls must have more than one argument"
-                    )]
-                    display_cedarvaluejson(f, &args[0], n)?;
+            // A method-style call needs a receiver. The JSON format does not
+            // enforce the arity of extension calls, so with no arguments at all
+            // we fall back to function-call syntax rather than indexing `args`.
+            match (style, args.split_first()) {
+                (Some(ast::CallStyle::MethodStyle), Some((receiver, rest))) => {
+                    display_cedarvaluejson(f, receiver, n)?;
                     write!(f, ".{ext_fn}(")?;
-                    #[expect(
-                        clippy::indexing_slicing,
-                        reason = "method-style calls must have more than one argument"
-                    )]
-                    match &args[1..] {
+                    match rest {
                         [] => {}
                         [args @ .., last] => {
                             for arg in args {
@@ -1560,7 +1555,7 @@ fn display_cedarvaluejson(
                     write!(f, ")")?;
                     Ok(())
                 }
-                Some(ast::CallStyle::FunctionStyle) | None => {
+                _ => {
                     write!(f, "{ext_fn}(")?;
                     match &args[..] {
                         [] => {}
